@@ -3,6 +3,8 @@ import random, cfgprog
 
 # forward+backward only: known finding (use_refined_invariants reports reachable, safe assertions as unreachable)
 FB_CORPUS = [
+    # executions start at another block than the CFG entry: dominators were computed from the wrong block (fixed defect fwdbwd-2)
+    "cfg 3 1 2 mode=error fwd=1 delay=1 desc=1 fb=1 entry=2 nasserts=1 | B 0 assign 0 E 0 0 | B 1 | B 2 assert C le E 1 -1 0 1 1 | E 0 1 1 2",
     "cfg 2 2 1 mode=error fwd=0 delay=1 desc=1 fb=1 refined=1 maxref=5 nasserts=1 | B 0 assign 0 E 0 2 ; assert C ne E 1 1 0 1 1 | B 1 assume C lt E 1 2 0 2 ; assign 0 E 1 1 1 -7 | E 0 1",
     # an assertion in a block that cannot reach the exit was discharged as safe (fixed defect)
     "cfg 4 1 3 mode=error fwd=1 delay=2 desc=1 fb=1 nasserts=1 | B 0 assign 0 E 0 0 | B 1 assert C le E 1 -1 0 1 1 | B 2 assign 0 E 0 2 | B 3 | E 0 1 0 2 2 3",
@@ -50,6 +52,18 @@ def gen(seed, n, fb=False, modes=("error", "error", "good"), all_stmts=False):
             opts += [("fb", 1), ("refined", rng.choice([0, 0, 1])), ("maxref", rng.choice([5, 5, 1, 2]))]
         if all_stmts:
             opts += [("bwdcheck", 0)]
+        if fb and rng.random() < 0.2:
+            # the executions start at another block (reachable from the CFG entry)
+            succ = {}
+            for a_, b_ in e:
+                succ.setdefault(a_, []).append(b_)
+            reach = {0}; work = [0]
+            while work:
+                v = work.pop()
+                for x in succ.get(v, []):
+                    if x not in reach:
+                        reach.add(x); work.append(x)
+            opts += [("entry", rng.choice(sorted(reach)))]
         if dead:
             opts += [("deadend", 1)]
         opts += [("nasserts", na)]
